@@ -45,6 +45,7 @@ type Gen struct {
 	phases int
 	client int
 	Pats   map[string]int
+	sticky *stickyState
 }
 
 func NewGen(t *rapid.T, p Profile, c *Cluster) *Gen {
@@ -101,6 +102,7 @@ func DrawHeader(t *rapid.T, p Profile) Header {
 		h.Padding = rapid.SampledFrom(pads).Draw(t, "padding")
 	}
 	h.DiskCheck = p.DiskCheck
+	h.DynamicMembers = p.Membership
 	if len(p.Combos) > 0 {
 		c := rapid.SampledFrom(p.Combos).Draw(t, "combo")
 		h.ET, h.LD, h.MaxDelayUs = c[0], c[1], c[2]
@@ -569,6 +571,8 @@ func (g *Gen) expand(pat string, v View) {
 		}
 		st = append(st, lit(Action{Op: "heal", Mode: "drop"}), advance(g.dur("d2", hb, et)))
 		g.push("P13", st...)
+	case "P16": // C16: a strict minority (plus non-voters / removed nodes) misbehaves, the leader's majority stays prompt
+		g.push("P16", g.stickySteps(v)...)
 	case "P12": // figure 8: alternate partial replication between two nodes
 		rounds := rapid.IntRange(2, 3).Draw(t, "rounds")
 		for r := 0; r < rounds; r++ {
@@ -735,6 +739,150 @@ func (g *Gen) membershipSteps(v View) []step {
 	}
 	st = append(st, advance(g.dur("dm", hb, et)))
 	return st
+}
+
+// stickySteps implements the C16 schedule: establish T0 (stable leader, everybody in its term),
+// optionally remove one voter (it keeps running), then let only nodes outside the leader's
+// majority misbehave. Links between majority nodes are never touched.
+func (g *Gen) stickySteps(v View) []step {
+	t := g.T
+	et, hb := g.etUs(), g.hbUs()
+	var st []step
+	if g.sticky == nil {
+		// T0
+		tries := 0
+		var setup step
+		setup = func(g *Gen, v View) (Action, bool) {
+			l := v.Leader()
+			stable := l != ""
+			if stable {
+				for _, s := range v.Status {
+					if s.Term != v.Status[l].Term || (s.State != "follower" && s.State != "leader") {
+						stable = false
+					}
+				}
+			}
+			tries++
+			if !stable && tries < 40 {
+				g.queue = append([]step{setup}, g.queue...)
+				return Action{Op: "advance", DurUs: et / 2}, true
+			}
+			if !stable {
+				return Action{Op: "advance", DurUs: et}, true
+			}
+			cf := v.Conf[l]
+			var voters, others []string
+			for id, isVoter := range cf.Members {
+				if isVoter && id != l {
+					voters = append(voters, id)
+				} else if id != l {
+					others = append(others, id)
+				}
+			}
+			sort.Strings(voters)
+			sort.Strings(others)
+			g.sticky = &stickyState{leader: l}
+			// optionally remove one voter through the public API; it keeps running
+			if len(voters) >= 3 && rapid.Bool().Draw(g.T, "withRemoved") {
+				victim := g.pick("removed", voters)
+				g.sticky.removed = victim
+				g.sticky.pendingMark = true
+				g.queue = append([]step{
+					advance(4 * hb), advance(4 * hb),
+					func(g *Gen, v View) (Action, bool) { return g.stickyMark(v), true },
+				}, g.queue...)
+				return Action{Op: "remove", Node: l, Node2: victim, Client: 8, Timeout: 200}, true
+			}
+			return g.stickyMark(v), true
+		}
+		st = append(st, setup)
+	}
+	n := rapid.IntRange(4, 25).Draw(t, "stickySteps")
+	for i := 0; i < n; i++ {
+		st = append(st, func(g *Gen, v View) (Action, bool) {
+			if g.sticky == nil || len(g.sticky.bad) == 0 || g.sticky.pendingMark {
+				return Action{Op: "advance", DurUs: hb}, true
+			}
+			x := g.pick("bad", g.sticky.bad)
+			switch rapid.SampledFrom([]string{"isolate", "isolate", "isolate", "reconnect", "reconnect", "advance", "advance", "advance", "crash", "stop", "restart", "restart", "release"}).Draw(g.T, "sticky") {
+			case "isolate":
+				return Action{Op: "isolate", Node: x, Mode: rapid.SampledFrom([]string{"drop", "drop", "held"}).Draw(g.T, "mode"), Dir: rapid.SampledFrom([]string{"both", "in", "out"}).Draw(g.T, "dir")}, true
+			case "reconnect":
+				return Action{Op: "reconnect", Node: x, Mode: rapid.SampledFrom([]string{"deliver", "drop"}).Draw(g.T, "rmode")}, true
+			case "crash":
+				if n := g.C.Nodes[x]; n != nil && n.Running() {
+					return Action{Op: "crash", Node: x}, true
+				}
+			case "stop":
+				if n := g.C.Nodes[x]; n != nil && n.Running() {
+					return Action{Op: "stop", Node: x}, true
+				}
+			case "restart":
+				if n := g.C.Nodes[x]; n != nil && n.Stopped() && n.everStarted {
+					return Action{Op: "restart", Node: x}, true
+				}
+			case "release":
+				if held := g.C.net.Held(); len(held) > 0 {
+					i := rapid.IntRange(0, len(held)-1).Draw(g.T, "msg")
+					return Action{Op: "release", Sel: i, Desc: held[i].Desc(), Mode: rapid.SampledFrom([]string{"deliver", "drop", "dup"}).Draw(g.T, "rel")}, true
+				}
+			}
+			return Action{Op: "advance", DurUs: g.dur("stickyAdv", 1000, hb, et/2, et, et+1000, 2*et, 3*et, 5*et, 10*et, 20*et)}, true
+		})
+	}
+	return st
+}
+
+type stickyState struct {
+	leader      string
+	removed     string
+	bad         []string
+	pendingMark bool
+}
+
+// stickyMark fixes the leader's majority and the set of nodes that may misbehave, and records T0.
+func (g *Gen) stickyMark(v View) Action {
+	l := g.sticky.leader
+	g.sticky.pendingMark = false
+	cf := v.Conf[l]
+	if cf == nil || v.Status[l].State != "leader" {
+		g.sticky = nil
+		return Action{Op: "advance", DurUs: g.hbUs()}
+	}
+	var voters []string
+	bad := map[string]bool{}
+	for _, id := range g.C.Order {
+		if id == l {
+			continue
+		}
+		if isVoter, member := cf.Members[id]; member && isVoter {
+			voters = append(voters, id)
+		} else {
+			bad[id] = true // non-voters, removed nodes, nodes that never joined
+		}
+	}
+	sort.Strings(voters)
+	nv := len(voters) + 1
+	minority := (nv - 1) / 2
+	k := 0
+	if minority > 0 {
+		k = rapid.IntRange(0, minority).Draw(g.T, "minority")
+	}
+	perm := rapid.Permutation(voters).Draw(g.T, "minorityPick")
+	for _, id := range perm[:k] {
+		bad[id] = true
+	}
+	var good []string
+	for _, id := range voters {
+		if !bad[id] {
+			good = append(good, id)
+		}
+	}
+	for id := range bad {
+		g.sticky.bad = append(g.sticky.bad, id)
+	}
+	sort.Strings(g.sticky.bad)
+	return Action{Op: "mark", Node: l, Set: good, Desc: "T0"}
 }
 
 // freeAction draws one action uniformly over what is enabled.
